@@ -437,7 +437,9 @@ impl<'a> Model for FetchModel<'a> {
         let forked = self.track.borrow().forked;
         // (one block beyond what the client has seen: a peer that reconnects at the stored tip's
         // height cannot be proven again before the chain grows)
-        let (chain, height) = if forked { (1usize, 17u64) } else { (0usize, 15u64) };
+        // ... and strictly heavier than any branch a peer has shown (a silent switch shows fork@15):
+        // a stored tip that no connected peer follows can serve no fetch until it is replaced
+        let (chain, height) = if forked { (1usize, 17u64) } else { (0usize, 17u64) };
         for p in 1..=2usize {
             if sim.bans().iter().any(|(b, _)| b.value() == p) {
                 continue;
@@ -467,6 +469,10 @@ impl<'a> Model for FetchModel<'a> {
                 self.after_event(sim);
             }
             sim.advance(3_000);
+            if std::env::var("VERIF_TRACE").is_ok() {
+                let tip = sim.c().storage.get_tip_header();
+                eprintln!("round: tip #{} best {:?} to-fetch {}/{} busy {:?}", Unpack::<u64>::unpack(&tip.raw().number()), sim.c().peers.get_best_proved_peers(&tip), sim.c().peers.get_headers_to_fetch().len(), sim.c().peers.get_txs_to_fetch().len(), (1..=2usize).map(|p| sim.c().peers.get_peer(&ckb_network::PeerIndex::new(p)).map(|x| (x.get_blocks_proof_request().is_some(), x.get_txs_proof_request().is_some()))).collect::<Vec<_>>());
+            }
             sim.tick_all();
             self.after_event(sim);
             for i in &asked_tx {
@@ -574,6 +580,10 @@ fn parse_ev(s: &str) -> Option<Ev> {
 }
 
 fn signature(hist: &[Ev], class: &str) -> String {
+    // a stale (transaction, block) answer after a fork has one root cause whatever else happened
+    if class.starts_with("committed-in-a-block-that-does-not-contain-it") && hist.iter().any(|e| matches!(e, Ev::ForkAll)) {
+        return format!("{}/fork", class);
+    }
     let kinds: BTreeSet<String> = hist
         .iter()
         .filter_map(|e| match e {
@@ -668,19 +678,8 @@ pub(crate) fn run(opts: &Opts, report: &mut Report) {
                     not_judged += 1;
                     return;
                 }
-                let kinds: BTreeSet<String> = hist
-                    .iter()
-                    .filter_map(|e| match e {
-                        Ev::SilentSwitch(_) => Some("silent-switch".to_owned()),
-                        Ev::ForkAll => Some("fork".to_owned()),
-                        Ev::Disconnect(_) => Some("disconnect".to_owned()),
-                        Ev::Refresh(1) => Some("timeout".to_owned()),
-                        Ev::DeliverCorrupt(_) => Some("bogus-proof".to_owned()),
-                        _ => None,
-                    })
-                    .collect();
                 report.violation(
-                    format!("{}/{}", class, kinds.into_iter().collect::<Vec<_>>().join("+")),
+                    signature(hist, &class),
                     format!("[{}] after {:?}: {}", name, hist, detail),
                     json!({"config": name, "events": hist.iter().map(|e| format!("{:?}", e)).collect::<Vec<_>>(), "transactions": TX_NAMES, "headers": HD_NAMES}),
                 );
@@ -711,4 +710,24 @@ pub(crate) fn run(opts: &Opts, report: &mut Report) {
     report.set("rule", json!("state = event list replayed on the real client (fingerprint: store + peers + pending messages + world position + statuses seen + budgets); transitions = (state, enabled event) pairs executed; every state: status-step legality and truthfulness of committed answers; every distinct state: honest continuation (6 rounds of deliveries, timers and repeated calls)"));
     report.set("bounds", json!({"depth": if thorough { "4" } else { "3" }, "budgets": "calls <= 3, FETCH ticks <= 2, REFRESH ticks <= 2, disconnect <= 1, connect <= 1, silent switch <= 1, fork <= 1, bogus proof <= 1"}));
     report.assume("honest peers (what varies is timing, availability and the branch they follow); dummy PoW");
+}
+
+#[allow(dead_code)]
+pub(crate) fn debug_case() {
+    let env = Env::dummy();
+    let m = make_model(&env, std::env::var("C16_INFLIGHT").is_ok(), true);
+    let evs: Vec<Ev> = std::env::var("C16_EVENTS").unwrap_or_default().split(';').filter(|x| !x.trim().is_empty()).filter_map(parse_ev).collect();
+    let mut sim = m.init(None);
+    sim.record_trace = true;
+    for (i, ev) in evs.iter().enumerate() {
+        m.apply(&mut sim, ev);
+        println!("after {:?}: {:?}", ev, m.check(&sim, &evs[..=i]));
+    }
+    println!("--- continuation");
+    println!("continuation: {:?}", m.on_new_state(&mut sim, &evs));
+    for l in &sim.trace {
+        println!("{}", l);
+    }
+    println!("{}", sim.c().peers.verif_dump(client::now()));
+    println!("bans {:?}", sim.bans());
 }
